@@ -5,14 +5,14 @@ VERIF = os.path.dirname(os.path.dirname(os.path.abspath(__file__)))
 ALL = ["C%02d" % i for i in range(1, 21)]
 CLAIMED = {
  "C01": dict(
-   text="Partial proof + exploration. Proved in Coq for every n: the judge (executable commutator closure) is sound, complete and total w.r.t. the inductive closure Cl (closure_strs_spec/total, via the orbit lemma); the classifier's census/name arithmetic (Model/Star.v) with the snapshot's census refuted and the repaired one proved for stars of single legs; closures of paths and of stars of single legs for every size; the algebra is the direct sum over the connected components of the anticommutation graph (C02_components_closure); the closure is the set of selection products and which selections occur depends only on the anticommutation pattern of the generators, so independent lists with the same pattern generate algebras of the same dimension on any numbers of qubits (C01_closure_by_selections, C01_graph_determines_size). Per run: every leg-length vector up to a bound through Morph/Classification vs the model, and the implementation's name vs the invariants (centre, per component |C|, |Z_C|, degree) of the verified closure on exhaustive small, structured and uniform collections, n<=6 quick / n<=8 thorough.",
+   text="Partial proof + exploration. Proved in Coq for every n: the judge (executable commutator closure) is sound, complete and total w.r.t. the inductive closure Cl (closure_strs_spec/total, via the orbit lemma); the classifier's census/name arithmetic (Model/Star.v) with the snapshot's census refuted and the repaired one proved for stars of single legs; closures of paths and of stars of single legs for every size; the algebra is the direct sum over the connected components of the anticommutation graph (C02_components_closure); the closure is the set of selection products and which selections occur depends only on the anticommutation pattern of the generators, so independent lists with the same pattern generate algebras of the same dimension on any numbers of qubits (C01_closure_by_selections, C01_graph_determines_size). Per run: every leg-length vector up to a bound through Morph/Classification vs the model, and the implementation's name vs the invariants (centre, per component |C|, |Z_C|, degree) of the verified closure on exhaustive small, structured and uniform collections, n<=6 quick / n<=8 thorough. The arithmetic core of classification.py (Morph.counts, get_properties, get_algebra_properties, Classification.get_dla_dim, get_algebra) is ALSO regenerated as Gallina from /repo's working tree on every run by the fail-closed translator tools/py2coq.py, and coq/Refine/ClassRefine.v re-proves that every generated function equals the hand model (gen_counts, gen_get_properties, gen_algprops, gen_dla_dim, gen_get_algebra, gen_dim_of_name).",
    note="Not proved: canonical types B1/B2/B3 generate sp/so/su of the stated size and equal invariants imply isomorphism (classification theorem arXiv:2408.00081). MorphFactory is validated, not modelled. No axioms.",
-   technique="Coq-verified closure oracle as judge + code-shaped census model; differential exploration of the classifier",
+   technique="Coq-verified closure oracle as judge + code-shaped census model; differential exploration of the classifier + source-to-Gallina translation of the census/name/dimension arithmetic with refinement proofs",
    design="6 C01"),
  "C09": dict(
-   text="Proof (name arithmetic) + exploration. Proved for every list of canonical graphs: the repaired get_dla_dim equals the dimension of the reported name (C09_name); the snapshot's formula is refuted on its model; the census dimension equals the number of strings of the commutator closure for each of the 56 canonical stars with a single leg and at most 10 vertices and EVERY independent generator list with that anticommutation graph, on any number of qubits (C09_census_is_closure_size: closure of the standard realisation enumerated in the kernel, carried to every realisation by the graph-determines-closure theorem). Per run: get_dla_dim vs |closure| from the verified oracle and vs the parsed name on the C01 input streams; synthetic Classification objects vs Model/Star.v.",
+   text="Proof (name arithmetic) + exploration. Proved for every list of canonical graphs: the repaired get_dla_dim equals the dimension of the reported name (C09_name); the snapshot's formula is refuted on its model; the census dimension equals the number of strings of the commutator closure for each of the 56 canonical stars with a single leg and at most 10 vertices and EVERY independent generator list with that anticommutation graph, on any number of qubits (C09_census_is_closure_size: closure of the standard realisation enumerated in the kernel, carried to every realisation by the graph-determines-closure theorem). Per run: get_dla_dim vs |closure| from the verified oracle and vs the parsed name on the C01 input streams; synthetic Classification objects vs Model/Star.v. The arithmetic core of classification.py (Morph.counts, get_properties, get_algebra_properties, Classification.get_dla_dim, get_algebra) is ALSO regenerated as Gallina from /repo's working tree on every run by the fail-closed translator tools/py2coq.py, and coq/Refine/ClassRefine.v re-proves that every generated function equals the hand model (gen_counts, gen_get_properties, gen_algprops, gen_dla_dim, gen_get_algebra, gen_dim_of_name).",
    note="Beyond 10 canonical vertices, and for the link closure(canonical vertices) = closure(input) (C02), equality with |closure| is validated per input (n<=7 quick, <=8 thorough; in-place histories included). The census theorem is a bounded kernel computation (vm_compute, 12 s) lifted to all realisations by a proof. No axioms.",
-   technique="Coq proof of dimension arithmetic + census = closure size for all canonical stars up to 10 vertices (kernel computation lifted by the graph-determines-closure theorem) + verified closure oracle as judge",
+   technique="Coq proof of dimension arithmetic + census = closure size for all canonical stars up to 10 vertices (kernel computation lifted by the graph-determines-closure theorem) + verified closure oracle as judge + source-to-Gallina translation of the census/name/dimension arithmetic with refinement proofs",
    design="6 C09"),
  "C02": dict(
    text="Translation-validation style: the reduction pipeline is not ported; its observable output (legs and dependents per canonical graph) is checked on every run by the Coq function reduction_ok, proved sound for every n (C02_validator_sound: true implies closure equality w.r.t. the inductive Cl, dependents in the closure, accounting, one graph per component, exact star shape). Closure laws justifying the pipeline's moves (contraction, added product, transport) proved for all n. Inputs: exhaustive small, structured, uniform collections n<=8 with closure; 9..16 qubits with shape/accounting and the F2-span necessary condition.",
@@ -21,9 +21,9 @@ CLAIMED = {
    category="proof",
    design="6 C02"),
  "C03": dict(
-   text="Proof at the specification level + metamorphic exploration. Proved for every n: each listed re-presentation (reorder/duplicate, qubit permutation, per-site X/Y/Z relabelling, appended identities, contraction, added product) maps the commutator closure bijectively onto the closure of the transformed generators preserving product and symplectic form, so the true algebra is invariant; a differing answer of the classifier on (G, tau G) is therefore a violation with a concrete replay at any size. Per run: 7 transformations on collections n=2..16, 3 repeated calls, re-runs under PYTHONHASHSEED in {0,1,2,random} in fresh processes.",
+   text="Proof at the specification level + metamorphic exploration. Proved for every n: each listed re-presentation (reorder/duplicate, qubit permutation, per-site X/Y/Z relabelling, appended identities, contraction, added product) maps the commutator closure bijectively onto the closure of the transformed generators preserving product and symplectic form, so the true algebra is invariant; a differing answer of the classifier on (G, tau G) is therefore a violation with a concrete replay at any size. Per run: 7 transformations on collections n=2..16, 3 repeated calls, re-runs under PYTHONHASHSEED in {0,1,2,random} in fresh processes. The arithmetic core of classification.py (Morph.counts, get_properties, get_algebra_properties, Classification.get_dla_dim, get_algebra) is ALSO regenerated as Gallina from /repo's working tree on every run by the fail-closed translator tools/py2coq.py, and coq/Refine/ClassRefine.v re-proves that every generated function equals the hand model (gen_counts, gen_get_properties, gen_algprops, gen_dla_dim, gen_get_algebra, gen_dim_of_name).",
    note="The implementation's answers are compared with each other (normalised summand multisets); agreement with the truth is C01. For n<=6 the oracle confirms that the harness's transformations preserve the invariants. No axioms.",
-   technique="Coq proofs of closure transport (homomorphism lemmas) + metamorphic differential runs",
+   technique="Coq proofs of closure transport (homomorphism lemmas) + metamorphic differential runs + source-to-Gallina translation of the census/name/dimension arithmetic with refinement proofs",
    design="6 C03"),
  "C08": dict(
    text="Proof of the specification + exploration. Model/Member.v computes select_dependents / is_in / is_eq / get_space from the verified closure; C08_* theorems say these decide membership in the inductive closure Cl for every n. Per run the implementation's four queries on generated (G, X) (members, one-letter near misses, commuting strings, identity, duplicates, permuted generator lists) are compared with the model, n<=5 quick / n<=7 thorough.",
